@@ -502,6 +502,52 @@ class Interp:
             self._records = recs
         return self._records
 
+    def _classifier(self, knode, env):
+        """class name -> constant, for a key function that answers by class alone: a module-level function of the package
+        or a static method of a plain record class (`cls.kind_of`, `ServerUsers.kind_of`) whose body is a chain of
+        `if isinstance(<param>, K): return "<constant>"` and a final `return "<constant>"`. None for anything else."""
+        fn = None
+        if isinstance(knode, ast.Name):
+            if getattr(self, "_pkg_fn", None) is None:
+                self._pkg_fn = self.pm.package_function_finder()
+            fn = self._pkg_fn(knode.id)
+        elif isinstance(knode, ast.Attribute) and isinstance(knode.value, ast.Name):
+            owner = knode.value.id
+            if owner in env and env[owner].k == "class" and len(env[owner].cls) == 1:
+                owner = next(iter(env[owner].cls))
+            rc = self.record_types().get(owner, (0, 0, None))[2]
+            if rc is not None:
+                fn = next((x for x in rc.body if isinstance(x, ast.FunctionDef) and x.name == knode.attr and is_static(x)), None)
+        if fn is None or len(fn.args.args) != 1:
+            return None
+        p_ = fn.args.args[0].arg
+        chain, default = [], None
+        body = [b for b in fn.body if not isinstance(b, (ast.Import, ast.ImportFrom))
+                and not (isinstance(b, ast.Expr) and isinstance(b.value, ast.Constant))]
+        for i, b in enumerate(body):
+            if isinstance(b, ast.If) and not b.orelse and len(b.body) == 1 and isinstance(b.body[0], ast.Return) \
+                    and isinstance(b.body[0].value, ast.Constant) and isinstance(b.body[0].value.value, str) \
+                    and isinstance(b.test, ast.Call) and isinstance(b.test.func, ast.Name) and b.test.func.id == "isinstance" \
+                    and len(b.test.args) == 2 and isinstance(b.test.args[0], ast.Name) and b.test.args[0].id == p_:
+                ks = b.test.args[1].elts if isinstance(b.test.args[1], ast.Tuple) else [b.test.args[1]]
+                if not all(isinstance(k_, ast.Name) and k_.id in self.pm.classes for k_ in ks):
+                    return None
+                chain.append(([k_.id for k_ in ks], b.body[0].value.value))
+            elif isinstance(b, ast.Return) and i == len(body) - 1 and isinstance(b.value, ast.Constant) \
+                    and isinstance(b.value.value, str):
+                default = b.value.value
+            else:
+                return None
+        if not chain or default is None:
+            return None
+
+        def kind(cn):
+            for ks, const in chain:
+                if any(self.pm.issub(cn, k_) for k_ in ks):
+                    return const
+            return default
+        return kind
+
     def _name_pattern(self, e, recv, env):
         """regular expression of the attribute names an expression can denote, when it is spelled out enough: an f-string
         with a constant part of at least 8 characters, or an entry `self.TABLE[…]` / `TABLE.get(…)` of a class-level dict
@@ -986,8 +1032,10 @@ class Interp:
                 self.bind(e.generators[0].target, add_deps(row, rows.deps), env2, cx)
                 ks.append(self.ev(e.key, env2, cx))
                 vs.append(self.ev(e.value, env2, cx))
+            exact = {k.const: v for k, v in zip(ks, vs)} if ks and all(
+                k.k == "raw" and isinstance(k.const, str) for k in ks) and len({k.const for k in ks}) == len(ks) else None
             return V("dict", elem=join(vs), deps=F().union(*[k.deps for k in ks]),
-                     kelem=join(ks) if ks and all(k.k == "obj" for k in ks) else None)
+                     kelem=join(ks) if ks and all(k.k == "obj" for k in ks) else None, fields=exact)
         saved_pushed, self._pushed = getattr(self, "_pushed", 0), 0     # (comprehensions nest: each counts its own)
         env2 = self._comp_env(e.generators, env, cx)
         pushed, self._pushed = self._pushed, saved_pushed
@@ -1277,6 +1325,7 @@ class Interp:
                 return V("list", elem=V("list", elem=ve))
             if name == "setdefault" and args:
                 dflt = args[1] if len(args) > 1 else V("none")
+                b.fields = None
                 b.deps = b.deps | args[0].deps
                 if b.elem is None:
                     b.elem = dflt
@@ -1287,9 +1336,18 @@ class Interp:
                     b.elem = join([b.elem, dflt])
                 return b.elem
             if name == "get":
+                # a dict whose entries are known one by one (built over the rows of an exact table): the entry, or the default
+                if b.fields is not None and e.args and self.cstr(e.args[0], env) is not None:
+                    kc = self.cstr(e.args[0], env)
+                    if kc in b.fields:
+                        return add_deps(b.fields[kc], b.deps)
+                    return add_deps(args[1], b.deps) if len(args) > 1 else V("none")
                 return add_deps(b.elem, alld) if b.elem is not None else raw(alld)
             if name == "update":
+                b.fields = None
                 return V("none")
+            if name not in ("copy", "__contains__", "__len__"):
+                b.fields = None      # pop / popitem / clear …: the entries are no longer known one by one
             return raw(b.deps | alld, deg={})
         if b.k == "obj":
             outs = []
@@ -1564,6 +1622,18 @@ class Interp:
                     and isinstance(knode.args[0], ast.Constant) and isinstance(knode.args[0].value, int) \
                     and el.k == "list" and el.items and 0 <= knode.args[0].value < len(el.items):
                 kv = el.items[knode.args[0].value]
+            # key=<a function that sorts objects into kinds by class: `if isinstance(o, K): return "<kind>"` …>: one group per
+            # kind, holding the objects of the classes that answer with it
+            clf = self._classifier(knode, env) if knode is not None else None
+            if clf is not None and el.k == "obj" and el.cls:
+                by_kind = {}
+                for c_ in sorted(el.cls):
+                    by_kind.setdefault(clf(c_), []).append(c_)
+                if None not in by_kind:
+                    pairs = [V("list", items=[raw(xs.deps, deg={}, const=k_),
+                                              V("list", elem=add_deps(V("obj", cs_, False), el.deps | xs.deps), deps=xs.deps)])
+                             for k_, cs_ in sorted(by_kind.items())]
+                    return V("list", items=pairs, elem=join(pairs), deps=xs.deps)
             grp = add_deps(el, kv.deps | xs.deps)
             # (key, group) pairs
             return V("list", elem=V("list", items=[add_deps(kv, xs.deps), V("list", elem=grp, deps=xs.deps | kv.deps)], elem=grp),
